@@ -194,7 +194,8 @@ def run_engine(ctx: Ctx) -> dict:
         if nm in by_name:
             jobs.append((by_name[nm], 0, falsy))
     # values of a type with a registered custom serde (JobInstance.serdes) and of an unregistered subclass of it
-    for nm, boxed in [("chain2_2x1_all", "@a,^b"), ("multiout_2x1_sinks", "^g,@u"), ("diamond_2x1_src_sink", "^s,@m1,^k")]:
+    for nm, boxed in [("chain2_2x1_all", "@a,^b"), ("multiout_2x1_sinks", "^g,@u,&v"), ("diamond_2x1_src_sink", "^s,@m1,&m2,^k"),
+                      ("chain2_2x1_all", "&a,@b")]:
         if nm in by_name:
             jobs.append((by_name[nm], 0, boxed))
     # the recorded job is the second one of its process, after a job with the same task names and other callables
